@@ -245,6 +245,11 @@ func (s *c10Server) serveOne(raw *simnet.TCPConn, conn net.Conn, rec *simnet.Con
 		if i > 0 && rs.pieceDelay > 0 {
 			time.Sleep(rs.pieceDelay)
 		}
+		if rs.Fault == "cut-mid-body" && i == (n+1)/2 {
+			// the connection dies part-way through the body (fewer bytes than Content-Length announced)
+			simrt.Fault("http-cut-mid-body")
+			return false
+		}
 		if rs.Stall == "mid-body" && i == (n+1)/2 {
 			simrt.Fault("http-stall-mid-body")
 			block()
